@@ -1,8 +1,11 @@
 package props
 
 import (
+	"crypto"
+	"crypto/ecdsa"
 	"errors"
 	"fmt"
+	"io"
 	"sync"
 	"testing"
 
@@ -20,9 +23,9 @@ import (
 var c11Keys = []refcose.KeyMat{
 	{Alg: refcose.AlgEdDSA, D: rc.Hex("c11-key-0-ed25519-seed-32-bytes!")},
 	{Alg: refcose.AlgES256, D: rc.Hex("c11-key-1")},
-	{Alg: refcose.AlgEdDSA, D: rc.Hex("c11-key-2-ed25519-seed-32-bytes!")},
-	{Alg: refcose.AlgES384, D: rc.Hex("c11-key-3")},
+	{Alg: refcose.AlgES384, D: rc.Hex("c11-key-2")},
 	{Alg: refcose.AlgPS256, RSA: "rsa2048"},
+	{Alg: refcose.AlgEdDSA, D: rc.Hex("c11-key-4-ed25519-seed-32-bytes!")},
 	{Alg: refcose.AlgES256, D: rc.Hex("c11-key-5")},
 	{Alg: refcose.AlgPS256, RSA: "rsa2048b"},
 }
@@ -34,6 +37,7 @@ type c11Case struct {
 	Perm    int   `json:"perm"`   // 0 identity, 1 transposition of first and last, 2 rotation by one
 	Decoded bool  `json:"decoded"`
 	ExtNil  bool  `json:"ext_nil"`
+	AlgLess bool  `json:"alg_less,omitempty"` // no signer carries alg (allowed with external data): all signer protected headers are the same empty bucket
 }
 
 type c11Base struct {
@@ -46,31 +50,39 @@ type c11Base struct {
 
 var (
 	c11BaseMu sync.Mutex
-	c11Bases  = map[int]*c11Base{}
+	c11Bases  = map[[2]int]*c11Base{}
 )
 
 // c11NewMessage builds the unsigned in-memory n-signer message.
-func c11NewMessage(n int) *cose.SignMessage {
+func c11NewMessage(n int, algLess ...bool) *cose.SignMessage {
 	m := &cose.SignMessage{
 		Headers: cose.Headers{Protected: cose.ProtectedHeader{int64(3): "text/plain"}, Unprotected: cose.UnprotectedHeader{int64(4): []byte("body")}},
 		Payload: []byte("positional payload"),
 	}
 	for i := 0; i < n; i++ {
-		m.Signatures = append(m.Signatures, &cose.Signature{Headers: cose.Headers{
+		sig := &cose.Signature{Headers: cose.Headers{
 			Protected:   cose.ProtectedHeader{int64(1): cose.Algorithm(c11Keys[i].Alg)},
 			Unprotected: cose.UnprotectedHeader{int64(4): []byte{byte('a' + i)}},
-		}})
+		}}
+		if len(algLess) > 0 && algLess[0] {
+			sig.Headers.Protected = cose.ProtectedHeader{}
+		}
+		m.Signatures = append(m.Signatures, sig)
 	}
 	return m
 }
 
-func c11base(n int) (*c11Base, error) {
+func c11base(n int, algLess bool) (*c11Base, error) {
 	c11BaseMu.Lock()
 	defer c11BaseMu.Unlock()
-	if b, ok := c11Bases[n]; ok {
+	ck := [2]int{n, 0}
+	if algLess {
+		ck[1] = 1
+	}
+	if b, ok := c11Bases[ck]; ok {
 		return b, nil
 	}
-	m := c11NewMessage(n)
+	m := c11NewMessage(n, algLess)
 	var ss []cose.Signer
 	for i := 0; i < n; i++ {
 		s, err := libSigner(c11Keys[i], false)
@@ -98,7 +110,7 @@ func c11base(n int) (*c11Base, error) {
 	if err != nil {
 		return nil, err
 	}
-	c11Bases[n] = b
+	c11Bases[ck] = b
 	return b, nil
 }
 
@@ -122,7 +134,7 @@ func permIndex(perm, n, i int) int {
 
 func checkC11(c c11Case) error {
 	n := c.N
-	b, err := c11base(n)
+	b, err := c11base(n, c.AlgLess)
 	if err != nil {
 		return err
 	}
@@ -133,8 +145,7 @@ func checkC11(c c11Case) error {
 			return finding("own-output-rejected", "%v", err)
 		}
 	} else {
-		m = c11NewMessage(n)
-		// the library would have injected nothing: every layer carries alg already
+		m = c11NewMessage(n, c.AlgLess)
 	}
 	sigs := make([][]byte, n)
 	for i := 0; i < n; i++ {
@@ -175,7 +186,7 @@ func checkC11(c c11Case) error {
 	anyBad, moved := false, false
 	for i := 0; i < n && i < nv; i++ {
 		tbs := refcose.SigStructure(b.env.ProtContent(), b.env.Sigs[i].ProtContent(), ext, b.payload)
-		ok := len(sigs[i]) > 0 && vkeys[i].Alg == c11Keys[i].Alg && refcose.Verify(vkeys[i].Alg, vkeys[i].Public(), tbs, sigs[i])
+		ok := len(sigs[i]) > 0 && (c.AlgLess || vkeys[i].Alg == c11Keys[i].Alg) && refcose.Verify(vkeys[i].Alg, vkeys[i].Public(), tbs, sigs[i])
 		if !ok {
 			want = false
 		}
@@ -272,12 +283,17 @@ func TestC11_Table(t *testing.T) {
 			}
 			for _, vd := range []int{-1, 0, 1} {
 				for perm := 0; perm < 3; perm++ {
-					for _, dec := range []bool{false, true} {
+					for di := 0; di < 3; di++ {
+						dec, algLess := di == 1, di == 2
 						cnt++
 						if cnt%nsh != sh {
 							continue
 						}
-						c := c11Case{N: n, Slots: slots, VDelta: vd, Perm: perm, Decoded: dec}
+						c := c11Case{N: n, Slots: slots, VDelta: vd, Perm: perm, Decoded: dec, AlgLess: algLess}
+						if algLess {
+							c.Decoded = code%2 == 0
+							stats.Class("alg-less-signers")
+						}
 						stats.Eval()
 						judge(t, "c11", c, checkC11)
 						if cnt%211 == 0 {
@@ -298,6 +314,21 @@ type c11SignCase struct {
 	N      int `json:"n"`
 	Delta  int `json:"delta"`   // signers minus n
 	FailAt int `json:"fail_at"` // -1: none
+	// OpaqueAt >= 1: the signer of that slot minus one is a built-in ES256 signer over an opaque
+	// crypto.Signer whose DER signature is followed by two padding bytes (a PKCS#11-style buffer)
+	OpaqueAt int `json:"opaque_at,omitempty"`
+}
+
+// trailingDERSigner wraps a real ECDSA key; its signatures carry trailing bytes.
+type trailingDERSigner struct{ priv *ecdsa.PrivateKey }
+
+func (t trailingDERSigner) Public() crypto.PublicKey { return &t.priv.PublicKey }
+func (t trailingDERSigner) Sign(r io.Reader, digest []byte, o crypto.SignerOpts) ([]byte, error) {
+	der, err := t.priv.Sign(r, digest, o)
+	if err != nil {
+		return nil, err
+	}
+	return append(der, 0x00, 0x00), nil
 }
 
 func checkC11Sign(c c11SignCase) error {
@@ -309,6 +340,16 @@ func checkC11Sign(c c11SignCase) error {
 		sp := bridge.RefSigner(k, []byte("c11sign"))
 		if i == c.FailAt {
 			sp.Mode = bridge.SignErr
+		}
+		if c.OpaqueAt == i+1 {
+			priv := refcose.KeyMat{Alg: refcose.AlgES256, D: rc.Hex("c11-opaque")}.Private().(*ecdsa.PrivateKey)
+			os, err := cose.NewSigner(cose.AlgorithmES256, trailingDERSigner{priv})
+			if err != nil {
+				return err
+			}
+			m.Signatures[i].Headers.Protected = cose.ProtectedHeader{int64(1): cose.AlgorithmES256}
+			ss = append(ss, os)
+			continue
 		}
 		ss = append(ss, sp)
 	}
@@ -349,6 +390,10 @@ func checkC11Sign(c c11SignCase) error {
 		// fully signed: verifies positionally
 		var vs []cose.Verifier
 		for i := 0; i < c.N; i++ {
+			if c.OpaqueAt == i+1 {
+				vs = append(vs, bridge.RefVerifier(refcose.KeyMat{Alg: refcose.AlgES256, D: rc.Hex("c11-opaque")}))
+				continue
+			}
 			vs = append(vs, bridge.RefVerifier(c11Keys[i]))
 		}
 		if err := m.Verify(nil, vs...); err != nil {
@@ -371,12 +416,14 @@ func TestC11_SignSide(t *testing.T) {
 				continue
 			}
 			for f := -1; f < n+d; f++ {
-				c := c11SignCase{N: n, Delta: d, FailAt: f}
-				cnt++
-				stats.Eval()
-				judge(t, "c11sign", c, checkC11Sign)
-				if cnt%9 == 0 {
-					stats.Sample("sign-side", c)
+				for op := 0; op <= n && (op == 0 || (d == 0 && f < 0)); op++ {
+					c := c11SignCase{N: n, Delta: d, FailAt: f, OpaqueAt: op}
+					cnt++
+					stats.Eval()
+					judge(t, "c11sign", c, checkC11Sign)
+					if cnt%9 == 0 {
+						stats.Sample("sign-side", c)
+					}
 				}
 			}
 		}
